@@ -103,6 +103,20 @@ def portfolio_specs(ctx):
     return specs
 
 
+def upper_face_specs(ctx):
+    """The optimum on or beyond the UPPER face of the first variable, whose internal image lies on the search mesh (hard bounds +-0.2, plausible
+    bounds +-0.1: internal +-2): the strategies then propose points exactly on that bound, and the search step has to evaluate exactly those."""
+    from .. import gen
+    rng = ctx.sub_rng("c18face")
+    specs = []
+    for i in range(3 if ctx.quick else 16):
+        mode = ["det", "det", "decl"][i % 3]
+        sp = gen.make_spec(rng, D=rng.choice([1, 2, 2, 3]), geom="decimal", mode=mode, cons=None, opt_loc=["outside", "on_bound", "outside"][i % 3], target=rng.choice(["quad", "abs"]))
+        sp["options"] = {"n_search": 32, "max_fun_evals": (sp["D"] + 45) if mode == "det" else 85, "noise_final_samples": 0}
+        specs.append(sp)
+    return specs
+
+
 def large_population_specs(ctx):
     """Search populations larger than the default (n_search / n_search_iter candidates per ES generation: 3000, 5000, 4100)."""
     from .. import gen
@@ -129,6 +143,10 @@ def tiny_population_specs(ctx):
     return specs
 
 
+def e_z(h):
+    return None if h is None else h.get("z_out")
+
+
 def run_level(ctx, rep):
     if not getattr(ctx, "_replaying", False):
         runlevel.with_extra(ctx, "c18empty", lambda: empty_population_specs(ctx))
@@ -136,6 +154,7 @@ def run_level(ctx, rep):
         runlevel.with_extra(ctx, "c18beta", lambda: fixed_beta_specs(ctx))
         runlevel.with_extra(ctx, "c18large", lambda: large_population_specs(ctx))
         runlevel.with_extra(ctx, "c18portfolio", lambda: portfolio_specs(ctx))
+        runlevel.with_extra(ctx, "c18face", lambda: upper_face_specs(ctx))
     if not getattr(ctx, "_replaying", False):
         runlevel.scripted_controller_runs(ctx, "c18script", 8 if ctx.quick else 60, want=("ctl", "filt", "gp"))
     traces = runlevel.get_pool(ctx)
@@ -154,6 +173,7 @@ def run_level(ctx, rep):
         gens = []
         es_out = []
         reported = set()
+        last_proposal, last_hedge = None, None
         for k, e in t["events"]:
             if k == "FILT" and e["site"] in ("es", "search") and e.get("out") and e.get("sms"):
                 box_reqs.append({"cmd": "mesh.bounds", "h": enc(e["sms"]), "lb": [enc(v) for v in (t["hdr"].get("lb_ref") or t["hdr"]["lb"])],
@@ -194,6 +214,7 @@ def run_level(ctx, rep):
                     stats["small_populations"] += e["n"] <= 3
                     gens.append([{"u": enc_pt(x), "z": enc(z)} for x, z in zip(e["xi"], e["zall"]) if math.isfinite(z)] if all(math.isfinite(z) for z in e["zall"]) else None)
             elif k == "HEDGE":
+                last_hedge = e
                 stats["hedge_calls"] += 1
                 stats["searches"] += 1
                 # hedge distribution
@@ -234,6 +255,18 @@ def run_level(ctx, rep):
                         es_owners.append((case, tag, e))
                 gens = []
                 es_out = []
+                last_proposal = e["u_out"] if (e.get("u_out") and not t.get("es_script")) else None
+            elif k == "CALL" and e.get("phase") == "search" and "exc" not in e:
+                # the search step EVALUATES the point its strategy proposed (already on the grid and inside the mesh-rounded box: nothing on the
+                # way from the strategy to the target may move it)
+                if last_proposal is not None and "evaluates_proposal" not in reported:
+                    stats["proposals_followed"] = stats.get("proposals_followed", 0) + 1
+                    pu = [float(v) for v in np.ravel(last_proposal)]
+                    if [float(v) for v in e["u"]] != pu:
+                        reported.add("evaluates_proposal")
+                        rep.violation("es_member", "bads.py:_search_step_", f"the search step evaluated {e['u']} while its strategy proposed {pu} (acquisition value {e_z(last_hedge)}): "
+                                      f"the evaluated point is not the acquisition-optimal candidate; {tag}", case)
+                last_proposal = None
             elif k == "SRCH":
                 n = e["post"]["fc"] - e["pre"]["fc"]
                 if n not in (0, 1):
